@@ -248,7 +248,7 @@ func MutateJSONTree(r *rand.Rand, text string, k int) (string, bool) {
 		}
 		s := sites[r.Intn(len(sites))]
 		wrong := []any{json.Number("5"), json.Number("1e400"), json.Number("-0"), true, nil, map[string]any{}, []any{}, "", "x", map[string]any{"@id": json.Number("1")}, map[string]any{"@value": nil}, []any{[]any{[]any{}}},
-			map[string]any{"@id": "http://ex.org/dangling"}, []any{"a", json.Number("1"), nil, map[string]any{}}, map[string]any{"@list": []any{}}, map[string]any{"@type": "@id"}, "[(1,1)-(2,2)]", "[(a,b)-(c,d)]", "[(1,1)]", strings.Repeat("9", 400)}
+			map[string]any{"@id": "http://ex.org/dangling"}, []any{"a", json.Number("1"), nil, map[string]any{}}, map[string]any{"@list": []any{}}, map[string]any{"@type": "@id"}, "[(1,1)-(2,2)]", "[(007,01)-(2,2)]", "[(a,b)-(c,d)]", "[(1,1)]", "[(-1,-1)-(1.5,2e3)]", strings.Repeat("9", 400)}
 		w := wrong[r.Intn(len(wrong))]
 		if s.m != nil {
 			switch r.Intn(4) {
